@@ -156,6 +156,9 @@ func (r *renderer) showInURL(env *env, v any, ctx ast.Context) error {
 	}
 
 	s := html.UnescapeString(b.String())
+	if s == "" {
+		return nil
+	}
 	out := newStringWriter(r.out)
 
 	if r.query {
